@@ -264,6 +264,23 @@ Fixpoint read_segs (k : nat) (b : bytes) : option (list tseg * bytes) :=
             end
   end.
 
+(* The same comprehension exactly as Python runs it, with its cost: `range(segment_num)` is lazy (O(1) even for
+   segment_num = 2^64-1), each iteration does one f.read(32) + unpack, and the first short read raises
+   struct.error.  Returns (number of reads performed, outcome).  fuel = S (len(remaining bytes)); it is never
+   exhausted (Proofs/FjmBound.v), and the outcome equals the bounded form used in read_thr. *)
+Fixpoint init_segments_loop (fuel : nat) (n : N) (b : bytes) : nat * option (list tseg * bytes) :=
+  if n =? 0 then (O, Some ([], b)) else
+  match fuel with
+  | O => (O, None)
+  | S f =>
+    match take segment_size b with
+    | None => (1%nat, None)
+    | Some (c, r) =>
+      let '(k, res) := init_segments_loop f (n - 1) r in
+      (S k, match res with None => None | Some (l, r') => Some (seg_of_bytes c :: l, r') end)
+    end
+  end.
+
 (* [unpack(tag, file_data[i:i+wb])[0] for i in range(0, len(file_data), wb)]: a trailing partial word
    is a struct.error.  fuel = len(file_data). *)
 Inductive ures := UOk (l : list N) | UStruct | UFuel.
